@@ -34,3 +34,6 @@ static inline void NAME(VEC *v, T *pos, const T *first, const T *last) { \
   v->len = v->len + (size_t)n; }
 DEF_INSERT(vec_keyid_insert, vec_keyid, struct KeyID)
 DEF_INSERT(vec_u8_insert, vec_u8, uint8_t)
+/* vector::resize(n): the list keeps its first n entries (growing is within the ghost capacity; new entries are value-initialised) */
+static inline void vec_keyid_resize(vec_keyid *v, size_t n) { __CPROVER_assert(n <= v->cap, "resize within the ghost capacity"); if (n > v->len) { if (v->len <= 0 && 0 < n) v->ptr[0]._value = 0; if (v->len <= 1 && 1 < n) v->ptr[1]._value = 0; if (v->len <= 2 && 2 < n) v->ptr[2]._value = 0; if (v->len <= 3 && 3 < n) v->ptr[3]._value = 0; } v->len = n; }
+static inline void vec_u8_resize(vec_u8 *v, size_t n) { __CPROVER_assert(n <= v->cap, "resize within the ghost capacity"); if (n > v->len) { if (v->len <= 0 && 0 < n) v->ptr[0] = 0; if (v->len <= 1 && 1 < n) v->ptr[1] = 0; if (v->len <= 2 && 2 < n) v->ptr[2] = 0; if (v->len <= 3 && 3 < n) v->ptr[3] = 0; } v->len = n; }
